@@ -23,12 +23,12 @@ def main():
     ns = dict(vars(mod))
     ns.update({"float": float, "inf": float("inf"), "nan": float("nan")})
     try:
-        vals = [eval(spec["args"][n], ns) for n in names]
+        vals = {n: eval(spec["args"][n], ns) for n in names}
     except Exception as e:  # noqa
         print(json.dumps({"reproduced": None, "outcome": "cannot rebuild arguments: " + repr(e)}))
         return
     try:
-        r = fn(*ob.params, *vals)
+        r = fn(*ob.params, **vals)
     except BaseException as e:  # noqa
         print(json.dumps({"reproduced": True,
                           "outcome": "raised " + "".join(traceback.format_exception_only(type(e), e)).strip()[:400]}))
